@@ -278,7 +278,7 @@ SUBPROCESS_FILTER_LISTS = ([], ["lcd"], ["lcd", "lcd"])
 _BOOL_VALID = [True, False]
 _BOOL_INVALID = [("bool", "false"), ("bool", "true"), ("bool", 0), ("bool", 1), ("bool", "x"), ("bool", None)]
 _COLORS = ["#FFFFFF", "white", "#FF0000", "transparent", "black", "red", "#00ff0080"]
-_COLOR_INVALID = [("type", 5), ("type", True), ("syntax", "notacolor"), ("syntax", "#12")]
+_COLOR_INVALID = [("type", 5), ("type", True), ("syntax", "notacolor"), ("syntax", "#12"), ("range", "rgb(300,0,0)"), ("range", "rgba(0,0,0,999)")]
 
 DOC = {
   "general": {
